@@ -1,7 +1,7 @@
 (* C02/Properties.v — property theorems only.  Each is closed by [exact lemma] and followed by
    [Print Assumptions]. *)
 From RM Require Import C08.Model.
-From RM Require Import C02.Model C02.ModelR5 C02.ModelR6 C02.Documented C02.Proofs1 C02.Proofs2 C02.Proofs3 C02.Proofs4 C02.Proofs5 C02.Proofs6 C02.Proofs7 C02.Proofs8 C02.Proofs9 C02.Proofs10 C02.Proofs11.
+From RM Require Import C02.Model C02.ModelR5 C02.ModelR6 C02.Documented C02.Proofs1 C02.Proofs2 C02.Proofs3 C02.Proofs4 C02.Proofs5 C02.Proofs6 C02.Proofs7 C02.Proofs8 C02.Proofs9 C02.Proofs10 C02.Proofs11 C02.Proofs12.
 Open Scope Z_scope.
 
 (* The layouts regenerated from minidump-common/src/format.rs on this run are the documented ones:
@@ -628,6 +628,43 @@ Proof.
   eapply (ra_cons BE (ex_macfile 2) 48 61 258 ex_rec1 ex_gap [9; 9]); [vm_compute; reflexivity|vm_compute; reflexivity|].
   eapply (ra_cons BE (ex_macfile 2) 48 54 204 ex_rec2 ex_gap []); [vm_compute; reflexivity|vm_compute; reflexivity|].
   apply ra_nil.
+Qed.
+
+(* round 5, second pass: the handle data stream AS A WHOLE with its object-information chains.  A stream of 40-byte descriptors
+   (16-byte header, any number of well-typed descriptors, any reserved word) whose every object_info_rva starts a chain that is in
+   the file (chain_at: wherever the records lie, whichever way the links point; rva 0 = no chain): the reader returns the chain of
+   every descriptor, in descriptor order — and get_stream serves it through any directory whose last HandleDataStream entry
+   slices to the stream.  (The descriptors themselves — handle, names, counts — are the `hnd` field of c02_dump_roundtrip.) *)
+Theorem c02_handle_stream_chains : forall e all reserved ds chains l1 size rva l3,
+  Forall (fun v => wt L_MINIDUMP_HANDLE_DESCRIPTOR_2 v = true) ds -> zlen ds < 4294967296 -> 0 <= reserved < 4294967296 ->
+  Forall2 (fun v c => chain_at e all (info_rva v) c /\ Z.of_nat (length c) <= zlen all / 12) ds chains ->
+  dec_handle_chains e all (handle_stream2 e reserved ds) = Some chains /\
+  (slice all rva size = Some (handle_stream2 e reserved ds) -> ~ In ST_HandleDataStream (map fst l3) ->
+   get_stream dec_handle_chains e all (l1 ++ (ST_HandleDataStream, (size, rva)) :: l3) ST_HandleDataStream = SOk chains).
+Proof.
+  intros e all reserved ds chains l1 size rva l3 W N R C. split.
+  - exact (handle_stream_chains e all reserved ds chains W N R C).
+  - exact (handle_stream_served e all reserved ds chains l1 size rva l3 W N R C).
+Qed.
+Print Assumptions c02_handle_stream_chains.
+
+(* a big-endian file: 32 bytes, the stream (two descriptors) at 32..128, then the LAST record of the first handle's chain at 128 and
+   its first record at 140 (link 140 -> 128 -> 0); the second handle has no chain; a decoy directory entry comes first *)
+Definition ex_desc (h rva : Z) : value := vtuple (map VInt [h; 0; 0; 1; 2; 3; 4; rva; 0]).
+Definition ex_hds : list value := [ex_desc 5 140; ex_desc 6 0].
+Definition ex_hfile : list Z :=
+  repeat 7 32 ++ handle_stream2 BE 9 ex_hds ++ enc_info_record BE 0 (2, 8) ++ enc_info_record BE 128 (1, 16).
+Example c02_nonvacuous_handle_stream :
+  Forall (fun v => wt L_MINIDUMP_HANDLE_DESCRIPTOR_2 v = true) ex_hds /\
+  Forall2 (fun v c => chain_at BE ex_hfile (info_rva v) c /\ Z.of_nat (length c) <= zlen ex_hfile / 12) ex_hds [[(1, 16); (2, 8)]; []] /\
+  slice ex_hfile 32 96 = Some (handle_stream2 BE 9 ex_hds) /\
+  get_stream dec_handle_chains BE ex_hfile [(ST_HandleDataStream, (5, 7)); (ST_HandleDataStream, (96, 32))] ST_HandleDataStream
+    = SOk [[(1, 16); (2, 8)]; []].
+Proof.
+  split; [repeat constructor|]. split; [|split; vm_compute; reflexivity].
+  constructor; [split; [|vm_compute; discriminate]|constructor; [split; [apply chain_nil|vm_compute; discriminate]|constructor]].
+  eapply chain_cons; [discriminate|vm_compute; reflexivity|reflexivity|].
+  eapply chain_cons; [discriminate|vm_compute; reflexivity|reflexivity|]. apply chain_nil.
 Qed.
 
 (* ------------------------------------------------------------------ round 5: the key/value syntax of the Linux text streams *)
